@@ -279,6 +279,18 @@ def run(ctx):
         pl = lib_np(prod)
         d1 = np.max(np.abs(pl - ref))
         ctx.check("su2 product/inverse", d1 < 1e-12, lambda: {"dev": d1}, mechanism="SU2M product/inverse")
+        # the same algebra for elements that contain boosts (hermitian, not unitary): (X g) g^-1 == X and g^-1 == numpy inverse
+        wv = rng.choice([1e-6, 0.05, 0.5, 2.0], size=nev) * rng.choice([-1.0, 1.0], size=nev)
+        bz_l = SU2M.Boost_z(tf.constant(wv))
+        g_l = els[0] * bz_l * els[1]
+        g_n = np.stack([refs[0][..., e] @ su2.bz(wv[e]) @ refs[1][..., e] for e in range(nev)], axis=-1)
+        gi = lib_np(g_l.inv())
+        back = lib_np((els[2] * g_l) * g_l.inv())
+        sc = float(np.exp(np.max(np.abs(wv)) / 2))
+        d_inv = max(float(np.max(np.abs(gi[..., e] - np.linalg.inv(g_n[..., e])))) for e in range(nev))
+        d_back = float(np.max(np.abs(back - refs[2])))
+        ctx.check("su2 product/inverse", d_inv < 1e-11 * sc and d_back < 1e-11 * sc * sc, lambda: {"inverse_dev": d_inv, "(Xg)g^-1 - X": d_back, "rapidities": wv},
+                  mechanism="SU2M product/inverse (elements with boosts)")
         worst = 0.0
         for el, name in ((els[0], "single"), (prod, "product")):
             ang = el.get_euler_angle()
@@ -334,10 +346,12 @@ def run(ctx):
             continue
         W = Bstd.inv() * L  # pure rotation by construction
         x = lib_np(W)[..., 0]
-        unit = np.max(np.abs(x @ x.conj().T - np.eye(2)))
         scale = math.exp((w1 + w2 + wp) / 2)
-        if unit > 1e-9 * scale:
-            ctx.count("wigner_skipped_not_unitary")
+        # the reference Wigner rotation from the polar decomposition; the library's product must be this (unitary) matrix
+        Wn = np.linalg.inv(sqrtH) @ Ln
+        dW = float(np.max(np.abs(x - Wn)))
+        if not ctx.check("su2 product/inverse", dW < 1e-8 * scale, lambda: {"w1": w1, "w2": w2, "euler": [a1, b1, c1], "lib_B^-1_L": x, "reference": Wn, "dev": dW},
+                         mechanism="SU2M product/inverse (standard boost inverse times Lorentz transformation)"):
             continue
         ang = W.get_euler_angle()
         al, be, ga = (float(np.asarray(ang[k_])[0]) for k_ in ("alpha", "beta", "gamma"))
